@@ -77,6 +77,14 @@ pub fn run_obs(op: &str, step: &Value, regs: &Regs, ctx: &mut Ctx, var: u64) -> 
             let p = a(1);
             let pe: Envelope = match tag_of(p) {
                 "reg" => reg(regs, &p[1])?.clone(),
+                "dig" => {
+                    // a predicate that occurs in the envelope, whatever its form (clear or obscured)
+                    let d = ctx.digest(&p[1]).map_err(|e| e.0)?;
+                    let found = e.assertions().into_iter().find_map(|x| {
+                        x.subject().as_predicate().filter(|q| q.digest().data() == &d)
+                    });
+                    found.ok_or("lookup: predicate with that digest not present")?
+                }
                 "val" => {
                     // simple values go through the typed constructor; anything else is built
                     match simple(&p[1], ctx) {
@@ -341,7 +349,11 @@ pub fn compare_obs(op: &str, want: &Value, got: &Value, ctx: &mut Ctx, natural_o
                         }
                         "ok" => {
                             if got[1]["cbor"].as_str() != Some(&bytes) {
-                                return Err(format!("extracted another value: {} stored {}", got[1]["cbor"], bytes));
+                                let major = |h: &str| u8::from_str_radix(&h[0..2.min(h.len())], 16).map(|b| b >> 5).unwrap_or(9);
+                                return Err(format!(
+                                    "#another-value:stored-major{}:got-major{}# extracted another value: {} stored {}",
+                                    major(&bytes), major(got[1]["cbor"].as_str().unwrap_or("")), got[1]["cbor"], bytes
+                                ));
                             }
                             Ok(())
                         }
